@@ -104,19 +104,10 @@ func (in *Interp) feasible(c *Term) (bool, *Model) {
 			return true, m
 		}
 	}
-	res, vals := in.solver.Check(in.pc, []*Term{c}, in.inputVars())
+	res, m := in.query([]*Term{c}, 20*time.Second)
 	switch res {
 	case Sat:
-		m := NewModel(vals)
 		return true, m
-	case Unsat:
-		return false, nil
-	}
-	// unknown: try harder once with a fall-back before over-approximating
-	res2, vals2, _ := in.solver.CheckOneShot(in.pc, []*Term{c}, in.inputVars(), 20*time.Second, "")
-	switch res2 {
-	case Sat:
-		return true, NewModel(vals2)
 	case Unsat:
 		return false, nil
 	}
@@ -216,7 +207,7 @@ func (in *Interp) concretize(t *Term, what string) uint64 {
 			in.cs.Inconclusive = append(in.cs.Inconclusive, fmt.Sprintf("concretisation cap exceeded (%s) in %s", what, in.where()))
 			break
 		}
-		res, vals := in.solver.Check(in.pc, excl, append(in.inputVars(), CollectVars([]*Term{t})...))
+		res, m := in.queryFocus(excl, []*Term{t}, 20*time.Second)
 		if res == Unsat {
 			break
 		}
@@ -224,7 +215,6 @@ func (in *Interp) concretize(t *Term, what string) uint64 {
 			in.cs.Inconclusive = append(in.cs.Inconclusive, fmt.Sprintf("unknown while concretising %s in %s", what, in.where()))
 			break
 		}
-		m := NewModel(vals)
 		v := m.Eval(t)
 		if seen[v] {
 			// should not happen
@@ -342,12 +332,8 @@ func (in *Interp) pathModel() (*Model, Result) {
 	if len(in.models) > 0 {
 		return in.models[0], Sat
 	}
-	res, vals := in.solver.Check(in.pc, nil, in.inputVars())
-	if res == Unknown {
-		res, vals, _ = in.solver.CheckOneShot(in.pc, nil, in.inputVars(), 30*time.Second, "")
-	}
+	res, m := in.query(nil, 30*time.Second)
 	if res == Sat {
-		m := NewModel(vals)
 		in.models = append(in.models, m)
 		return m, Sat
 	}
@@ -441,20 +427,20 @@ func (in *Interp) checkStrong(extra []*Term) (Result, map[string]uint64) {
 			return Sat, m.vals
 		}
 	}
-	res, vals := in.solver.Check(in.pc, extra, in.inputVars())
-	if res == Unknown {
-		var who string
-		res, vals, who = in.solver.CheckOneShot(in.pc, extra, in.inputVars(), time.Duration(in.cfg.assertTimeoutS)*time.Second, "")
-		_ = who
-	} else if res == Unsat && in.cfg.crossCheck {
-		r2, _, _ := in.solver.CheckOneShot(in.pc, extra, nil, time.Duration(in.cfg.assertTimeoutS)*time.Second, "z3-new")
+	res, m := in.query(extra, time.Duration(in.cfg.assertTimeoutS)*time.Second)
+	if res == Unsat && in.cfg.crossCheck {
+		cons, _ := in.slice(extra)
+		r2, _, _ := in.solver.CheckOneShot(append(append([]*Term(nil), cons...), extra...), nil, nil, time.Duration(in.cfg.assertTimeoutS)*time.Second, in.cfg.crossSolver)
 		in.crossChecked++
 		if r2 == Sat {
-			in.cs.Inconclusive = append(in.cs.Inconclusive, "solver disagreement: z3 unsat vs z3-new sat at "+in.where())
+			in.cs.Inconclusive = append(in.cs.Inconclusive, "solver disagreement: pipe solver unsat vs "+in.cfg.crossSolver+" sat at "+in.where())
 			return Unknown, nil
 		}
 	}
-	return res, vals
+	if res == Sat {
+		return res, m.vals
+	}
+	return res, nil
 }
 
 func (in *Interp) recordViolation(m *Model, msg, kind, site string, knowns []string) {
